@@ -167,7 +167,7 @@ impl Prop for C12 {
         ]
     }
     fn run_worker(&self, ctx: &Ctx, rep: &mut Report) {
-        let n = ctx.share(ctx.tier.pick(8_000, 100_000));
+        let n = ctx.share(ctx.tier.pick(20_000, 200_000));
         drive(ctx, rep, "histories", cases(), n, &mut |c: &Case| judge_case(c));
     }
     fn replay(&self, _ctx: &Ctx, case: &Value) -> Obs {
